@@ -3,8 +3,9 @@
    stay Coq datatypes.  No Extract Constant. *)
 From Coq Require Extraction.
 From Coq Require Import ExtrOcamlBasic.
-From CacheV Require Import Base SpecMap Client CacheModel CacheOfModel Ops Exec TableModel TabExec.
+From CacheV Require Import Base SpecMap Client CacheModel CacheOfModel Ops Exec TableModel TabExec XMachine XExec.
 Extraction Language OCaml.
 Extraction "model.ml"
   x_new x_newdefault x_step x_spec_next x_spec_okb fn_of vis_of z_push_digit z_digits z_is_neg z_small
+  x_machine_init x_machine_step x_store x_loadorstore x_loadandstore x_loadorcompute x_compute x_loadanddelete x_cur_table pack_meta
   x_tab_new x_tab_step x_compute_op x_loadorcompute_op x_tab_cur t_seed t_chains t_size.
